@@ -2366,6 +2366,8 @@ class Face3D(Base2DIn3D):
             return None  # typically a tolerance issue causing failure
         # rebuild the Face3D from the results and return them
         union_faces = Face3D._from_bool_poly(poly_result, prim_pl, tolerance)
+        if len(union_faces) != 1:  # the faces do not overlap (eg. one in a hole)
+            return None
         return union_faces[0]
 
     @staticmethod
